@@ -1,8 +1,12 @@
 """Per-kernel, precondition-respecting call generators for the compiled kernels (C20).
 
 Each generator returns a list of call specs:
-   dict(fn=<exported C name>, res=<'int'|'double'|None>, args=[...], pre=<documented preconditions>)
-where an argument is a python int -> C int, ('f', x) -> float, ('d', x) -> double, or a Buf.
+   dict(fn=<exported C name>, res=<'int'|'double'|None>, args=[...], pre=<documented preconditions>[, cls=<input class tag>])
+(cls tags are counted per layer by vlib/kworker.py; vlib/checks/c20.py lists the classes that must have been driven.)
+The argument list is in C call order, which is also the order of the .pyf block: the f2py layer relies on that.
+Case dimensions are either stratified on the round number k with pairwise coprime periods or drawn from the case's own
+generator r = rng(seed, "C20", layer, round, generator index), so every case is reproducible from (seed, layer, round).
+An argument is a python int -> C int, ('f', x) -> float, ('d', x) -> double, or a Buf.
 Buf roles:
    in      kernel may only read it
    out     kernel output; with full=True every byte is promised defined on return
@@ -52,6 +56,14 @@ NPROP, PROPIDX = nproperty()
 NPROP2D = 11
 
 SHAPES = [(2, 2), (2, 3), (3, 2), (2, 9), (9, 2), (3, 3), (4, 7), (8, 8), (17, 5), (31, 33), (64, 64)]
+# extreme aspect ratios / row lengths around the OpenMP chunk and simd widths; drawn from the case rng (never stratified on the
+# round number) so that they are independent of every other case dimension
+ASPECT = [(2, 700), (700, 2), (3, 257), (129, 5), (2, 4099), (1367, 3)]
+
+
+def pick(r, seq):
+    """one element of seq drawn from the case's own generator (reproducible from (seed, mode, round, generator))"""
+    return seq[int(r.integers(len(seq)))]
 
 
 def img_f32(r, shape, kind):
@@ -67,10 +79,21 @@ def img_f32(r, shape, kind):
         a[0, :] = a[-1, :] = 30
         a[:, 0] = a[:, -1] = 30
         return a
+    if kind == "isolated":
+        # every pixel at (even row, even column): no two are neighbours even with 8-connectivity
+        a = np.zeros(shape, np.float32)
+        a[::2, ::2] = 20
+        return a
+    if kind == "plateau":
+        # few distinct levels: many exactly equal neighbours
+        return (r.integers(0, 3, shape) * 10).astype(np.float32)
+    if kind == "constant":
+        return np.full(shape, 7.0, np.float32)
     return np.where(r.random(shape) < r.choice([0.1, 0.5, 0.9]), r.random(shape) * 100 + 10, 0).astype(np.float32)
 
 
 KINDS = ["bernoulli", "zeros", "full", "checker", "border", "bernoulli"]
+KINDS5 = ["bernoulli", "zeros", "full", "checker", "border"]
 
 
 def sparse_pattern(r, shape, kind):
@@ -99,15 +122,32 @@ SPK = ["bernoulli", "nnz0", "nnz1", "corners", "emptyrows", "full", "bernoulli"]
 
 
 def g_connectedpixels(r, k):
+    def call(img, thr, verbose, con8, cls):
+        sh = img.shape
+        return dict(fn="v_connectedpixels", res="int", cls=cls,
+                    args=[IN(img, "data"), OUT(sh, np.int32, name="labels"), ("f", float(thr)), int(verbose), int(con8), sh[0], sh[1]],
+                    pre="ns,nf >= 2; labels has ns*nf entries")
+    calls = []
+    # (1) stratified: (connectivity, content) walks through all 10 combinations every 10 rounds (k%2 and (k//2)%5 are
+    #     independent), the boundary shape list has period 11 (coprime): nothing is aliased with anything else
     shape = SHAPES[k % len(SHAPES)]
+    con8, kind = k % 2, KINDS5[(k // 2) % 5]
+    calls.append(call(img_f32(r, shape, kind), 5.0, 0, con8, "cp:%s:con%d" % (kind, 8 if con8 else 4)))
+    # (2) everything drawn from the case rng: shape (boundary list + extreme aspect ratios), content, connectivity,
+    #     threshold (0 and -1: also the zero pixels are above threshold); verbose=1 every fifth round
+    shape = pick(r, SHAPES + ASPECT[:4])
+    kind, con8 = pick(r, KINDS5 + ["plateau", "isolated"]), int(r.integers(2))
+    thr, verbose = pick(r, [5.0, 5.0, 0.0, -1.0, 25.0]), int(k % 5 == 1)
+    calls.append(call(img_f32(r, shape, kind), thr, verbose, con8,
+                      "cp:rand:%s:con%d%s" % (kind, 8 if con8 else 4, ":verbose" if verbose else "")))
+    # (3) disjoint-set capacity: dset_initialise(16384) must grow by realloc (blobs.c dset_new)
+    #     k%23==7 : 4-connected 260x260 checkerboard = 33800 provisional labels (two doublings)
+    #     k%23==3 : 8-connected 264x264 isolated pixels = 17424 provisional labels (one doubling, 8-connected branches)
     if k % 23 == 7:
-        shape = (260, 260)     # > 16384 provisional labels with 4-connectivity checkerboard
-        img = img_f32(r, shape, "checker")
-    else:
-        img = img_f32(r, shape, KINDS[k % len(KINDS)])
-    return [dict(fn="v_connectedpixels", res="int",
-                 args=[IN(img, "data"), OUT(shape, np.int32, name="labels"), ("f", 5.0), 0, int(k % 2), shape[0], shape[1]],
-                 pre="ns,nf >= 2; labels has ns*nf entries")]
+        calls.append(call(img_f32(r, (260, 260), "checker"), 5.0, 0, 0, "cp:capacity:con4"))
+    if k % 23 == 3:
+        calls.append(call(img_f32(r, (264, 264), "isolated"), 5.0, 0, 1, "cp:capacity:con8"))
+    return calls
 
 
 def _labels(r, shape, kind):
@@ -154,17 +194,22 @@ def g_bloboverlaps(r, k):
     shape = SHAPES[k % len(SHAPES)]
     if shape[0] * shape[1] > 400:
         shape = (12, 15)
-    img1, l1, n1 = _labels(r, shape, KINDS[k % len(KINDS)])
-    img2, l2, n2 = _labels(r, shape, KINDS[(k + 1) % len(KINDS)])
-    if n1 == 0 or n2 == 0:
-        # labelimage.mergelast only calls bloboverlaps when both frames have peaks
-        return []
+    k1 = KINDS[k % len(KINDS)]
+    k2 = KINDS[(k + 1) % len(KINDS)]
+    if k % 4 == 3:
+        # second call dimension from the case rng; "zeros" gives a frame without peaks (n1 or n2 == 0): bloboverlaps
+        # and blob_moments are exported to users, not only reached through labelimage.mergelast
+        k1, k2 = pick(r, KINDS5), pick(r, KINDS5)
+    img1, l1, n1 = _labels(r, shape, k1)
+    img2, l2, n2 = _labels(r, shape, k2)
     res1, res2 = _props(img1, l1, n1, 0.0), _props(img2, l2, n2, 1.0)
-    return [dict(fn="bloboverlaps", res="int",
+    cls = "bloboverlaps:" + ("nopeaks" if (n1 == 0 or n2 == 0) else "peaks")
+    return [dict(fn="bloboverlaps", res="int", cls=cls,
                  args=[INOUT(l1, "labels1"), n1, INOUT(res1, "results1"), INOUT(l2, "labels2"), n2, INOUT(res2, "results2"),
                        0, shape[0], shape[1]],
-                 pre="labels1 in 0..n1, labels2 in 0..n2, n1,n2 >= 1 (as labelimage.mergelast calls it); results from blobproperties"),
-            dict(fn="blob_moments", res=None, args=[INOUT(res1.copy(), "results"), n1], pre="results from blobproperties")]
+                 pre="labels1 in 0..n1, labels2 in 0..n2, n1,n2 >= 0; results from blobproperties (n*NPROPERTY entries)"),
+            dict(fn="blob_moments", res=None, cls="blob_moments:np%s" % ("0" if n1 == 0 else "+"),
+                 args=[INOUT(res1.copy(), "results"), n1], pre="results from blobproperties; np >= 0")]
 
 
 def g_clean_mask(r, k):
@@ -178,48 +223,107 @@ def g_clean_mask(r, k):
                        shape[0], shape[1]], pre="ns,nf >= 2")]
 
 
+LML_SHAPES = [(3, 3), (3, 4), (4, 3), (3, 17), (17, 3), (5, 5), (16, 16), (33, 31), (64, 64),
+              (2, 2), (2, 3), (3, 2), (2, 9), (9, 2)]
+LML_KINDS = ["random", "plateau", "constant", "zeros", "bernoulli"]      # 5 kinds x 14 shapes: coprime periods
+
+
 def g_localmaxlabel(r, k):
-    shape = [(3, 3), (3, 4), (4, 3), (3, 17), (17, 3), (5, 5), (16, 16), (33, 31), (64, 64)][k % 9]
-    img = (r.random(shape) * 100).astype(np.float32)
-    return [dict(fn="localmaxlabel", res="int",
+    # the C code documents no minimum size; the statement says "from 2x2": 2xN / Nx2 have an empty main loop and consist
+    # of border only.  Content: non-tied floats, plateaus of exactly equal neighbours, constant and all-zero images
+    # (ties are resolved towards the earlier candidate, so the uphill walk must still terminate inside the image)
+    shape = LML_SHAPES[k % len(LML_SHAPES)]
+    kind = LML_KINDS[k % len(LML_KINDS)]
+    if min(shape) > 2 and r.random() < 0.15:
+        shape = pick(r, ASPECT[:4])
+    img = (r.random(shape) * 100).astype(np.float32) if kind == "random" else img_f32(r, shape, kind)
+    return [dict(fn="localmaxlabel", res="int", cls="lml:%s:%s" % (kind, "thin" if min(shape) == 2 else "ge3"),
                  args=[IN(img, "data"), OUT(shape, np.int32, name="labels"), OUT(shape, np.uint8, name="wrk"),
-                       shape[0], shape[1]], pre="ns,nf >= 3")]
+                       shape[0], shape[1]], pre="ns,nf >= 2")]
+
+
+# largest coordinate used: mask_to_coo documents ns,nf <= 65535, i.e. row/column indices up to 65534
+COORD_TOPS = [2047, 4095, 65534]
+
+
+def coord_offset(r, n):
+    """offset that moves a pattern of extent n so that its last row (column) is a detector-size coordinate"""
+    return int(pick(r, COORD_TOPS)) - (n - 1)
 
 
 def g_sparse(r, k):
     shape = SHAPES[k % len(SHAPES)]
-    i, j, m = sparse_pattern(r, shape, SPK[k % len(SPK)])
+    kind = SPK[k % len(SPK)]
+    capacity = (k % 23 == 11)
+    if capacity:
+        # > 16384 provisional labels in sparse_connectedpixels / _splat (dset_initialise(16384) must grow):
+        # 150*150 = 22500 mutually isolated pixels
+        shape = (300, 300)
+        m = np.zeros(shape, bool)
+        m[::2, ::2] = True
+        i, j = [a.astype(np.uint16) for a in np.nonzero(m)]
+    else:
+        i, j, m = sparse_pattern(r, shape, kind)
     nnz = len(i)
-    v = (r.random(nnz) * 100 + 1).astype(np.float32)
-    v[r.random(nnz) < 0.2] = 0.0
+    vkind = "capacity" if capacity else ["random", "plateau", "random", "equal"][k % 4]     # periods 4, 7 (pattern), 11 (shape)
+    if vkind == "random":
+        v = (r.random(nnz) * 100 + 1).astype(np.float32)
+        v[r.random(nnz) < 0.2] = 0.0
+        if nnz:
+            v[int(r.integers(nnz))] = 0.0       # at least one pixel at or below the threshold: a label 0 exists
+    elif vkind == "plateau":
+        v = r.integers(0, 3, nnz).astype(np.float32)          # ties everywhere, a third below the threshold
+    else:
+        v = np.full(nnz, 9.0, np.float32)
+    # dense picture of the thresholded pattern at its small origin: independent labels for the 2D properties
+    from scipy import ndimage
+    above = np.zeros(shape, bool)
+    above[i, j] = v > 0.5
+    lab, n = ndimage.label(above, structure=np.ones((3, 3)))
+    lb = lab[i, j].astype(np.int32)            # 0 for the pixels at or below the threshold ("labels in 0..npk")
+    # detector-size coordinates: translate the pattern (keeps it sorted); cost of the sparse kernels depends on nnz only
+    oi = oj = 0
+    if not capacity and nnz and k % 5 in (1, 3):
+        oi, oj = pick(r, [0, coord_offset(r, shape[0])]), pick(r, [0, coord_offset(r, shape[1])])
+        if oi == 0 and oj == 0:
+            oi = coord_offset(r, shape[0])
+    big = bool(oi or oj)
+    i, j = (i.astype(np.int64) + oi).astype(np.uint16), (j.astype(np.int64) + oj).astype(np.uint16)
+    ni, nj = shape[0] + oi, shape[1] + oj
+    tag = "sparse:%s" % ("capacity" if capacity else ("bigcoord" if big else "small"))
     calls = []
-    calls.append(dict(fn="sparse_is_sorted", res="int", args=[IN(i, "i"), IN(j, "j"), nnz], pre="none"))
-    calls.append(dict(fn="sparse_connectedpixels", res="int",
+    calls.append(dict(fn="sparse_is_sorted", res="int", cls=tag, args=[IN(i, "i"), IN(j, "j"), nnz], pre="none"))
+    calls.append(dict(fn="sparse_connectedpixels", res="int", cls=tag,
                       args=[IN(v, "v"), IN(i, "i"), IN(j, "j"), nnz, ("f", 0.5), OUT(nnz, np.int32, name="labels")],
                       pre="i,j sorted row-major without duplicates"))
-    zs = (shape[0] + 2) * (shape[1] + 2)
-    calls.append(dict(fn="sparse_connectedpixels_splat", res="int",
-                      args=[IN(v, "v"), IN(i, "i"), IN(j, "j"), nnz, ("f", 0.5), OUT(nnz, np.int32, full=False, name="labels"),
-                            SCRATCH(zs, np.int32, name="Z"), shape[0], shape[1]],
-                      pre="sorted; Z has (ni+2)*(nj+2) entries; i < ni, j < nj"))
-    calls.append(dict(fn="sparse_smooth", res=None,
+    zs = (ni + 2) * (nj + 2)
+    if zs <= 5000000:
+        calls.append(dict(fn="sparse_connectedpixels_splat", res="int", cls=tag,
+                          args=[IN(v, "v"), IN(i, "i"), IN(j, "j"), nnz, ("f", 0.5), OUT(nnz, np.int32, full=False, name="labels"),
+                                SCRATCH(zs, np.int32, name="Z"), ni, nj],
+                          pre="sorted; Z has (ni+2)*(nj+2) entries; i < ni, j < nj"))
+    calls.append(dict(fn="sparse_smooth", res=None, cls=tag,
                       args=[IN(v, "v"), IN(i, "i"), IN(j, "j"), nnz, OUT(nnz, np.float32, name="s")], pre="sorted"))
-    calls.append(dict(fn="sparse_localmaxlabel", res="int",
+    calls.append(dict(fn="sparse_localmaxlabel", res="int", cls=tag + ":" + vkind,
                       args=[IN(v, "v"), IN(i, "i"), IN(j, "j"), nnz, OUT(nnz, np.float32, name="MV"),
                             OUT(nnz, np.int32, name="iMV"), OUT(nnz, np.int32, name="labels")], pre="sorted"))
-    # labels for 2D properties
-    from scipy import ndimage
-    lab, n = ndimage.label(m, structure=np.ones((3, 3)))
-    lb = lab[i, j].astype(np.int32)
     calls.append(dict(fn="sparse_blob2Dproperties", res=None,
+                      cls="blob2D:%s" % ("label0" if (nnz and (lb == 0).any()) else "nolabel0"),
                       args=[IN(v, "v"), IN(i, "i"), IN(j, "j"), nnz, IN(lb, "labels"), OUT((n, NPROP2D), np.float64, name="results"),
-                            int(n)], pre="labels in 0..npk"))
-    # mask_to_coo
-    if nnz >= 1:
-        calls.append(dict(fn="mask_to_coo", res="int",
+                            int(n)], pre="labels in 0..npk (0 = background pixel, as sparse_connectedpixels(threshold) returns them)"))
+    # mask_to_coo (dense mask: small origin only).  nnz == 0 is what sparseframe.from_data_mask passes for an empty
+    # mask: the kernel answers 3 and must not touch the (empty) outputs
+    if not big:
+        calls.append(dict(fn="mask_to_coo", res="int", cls="mask_to_coo:nnz%s" % ("0" if nnz == 0 else "+"),
                           args=[IN(m.astype(np.int8), "msk"), shape[0], shape[1], OUT(nnz, np.uint16, name="i"),
                                 OUT(nnz, np.uint16, name="j"), nnz, SCRATCH(shape[0], np.int32, name="w")],
-                          pre="nnz == number of non-zero mask pixels >= 1; w has ns entries"))
+                          pre="nnz == number of non-zero mask pixels >= 0; w has ns entries"))
+        if r.random() < 0.25:
+            # documented error return 4: the caller's nnz disagrees with the mask; i,j (nnz+1 entries) stay untouched
+            calls.append(dict(fn="mask_to_coo", res="int", cls="mask_to_coo:mismatch",
+                              args=[IN(m.astype(np.int8), "msk"), shape[0], shape[1], OUT(nnz + 1, np.uint16, full=False, name="i"),
+                                    OUT(nnz + 1, np.uint16, full=False, name="j"), nnz + 1, SCRATCH(shape[0], np.int32, name="w")],
+                              pre="nnz != number of mask pixels: returns 4; i,j have nnz entries; w has ns entries"))
     return calls
 
 
@@ -228,13 +332,19 @@ def g_overlaps(r, k):
     i1, j1, m1 = sparse_pattern(r, shape, SPK[k % len(SPK)])
     i2, j2, m2 = sparse_pattern(r, shape, SPK[(k + 3) % len(SPK)])
     n1, n2 = len(i1), len(i2)
+    id1, jd1, id2, jd2 = i1, j1, i2, j2          # small-origin copies: index the dense label images below
+    if r.random() < 0.3:
+        # both frames translated to detector-size coordinates (the overlap kernels only compare coordinates)
+        oi, oj = coord_offset(r, shape[0]), pick(r, [0, coord_offset(r, shape[1])])
+        i1, i2 = [(a.astype(np.int64) + oi).astype(np.uint16) for a in (i1, i2)]
+        j1, j2 = [(a.astype(np.int64) + oj).astype(np.uint16) for a in (j1, j2)]
     calls = [dict(fn="sparse_overlaps", res="int",
                   args=[IN(i1, "i1"), IN(j1, "j1"), OUT(n1, np.int32, name="k1"), n1, IN(i2, "i2"), IN(j2, "j2"),
                         OUT(n2, np.int32, name="k2"), n2], pre="both patterns sorted")]
     from scipy import ndimage
     l1, p1 = ndimage.label(m1, structure=np.ones((3, 3)))
     l2, p2 = ndimage.label(m2, structure=np.ones((3, 3)))
-    la, lb = l1[i1, j1].astype(np.int32), l2[i2, j2].astype(np.int32)
+    la, lb = l1[id1, jd1].astype(np.int32), l2[id2, jd2].astype(np.int32)
     both = m1 & m2
     r_ = l1[both].astype(np.int32)
     c_ = l2[both].astype(np.int32)
@@ -244,12 +354,12 @@ def g_overlaps(r, k):
                       args=[INOUT(r_, "i"), INOUT(c_, "j"), OUT(n, np.int32, full=False, name="oi"),
                             OUT(n, np.int32, full=False, name="oj"), SCRATCH(nt, np.int32, name="tmp"), n, nt],
                       pre="labels >= 0 and < nt (tmp longer than the largest label)"))
-    if p1 >= 1 and p2 >= 1:
-        calls.append(dict(fn="coverlaps", res="int",
-                          args=[IN(i1, "row1"), IN(j1, "col1"), IN(la, "labels1"), n1, IN(i2, "row2"), IN(j2, "col2"),
-                                IN(lb, "labels2"), n2, SCRATCH((p1, p2), np.int32, name="mat"), p1, p2,
-                                OUT(3 * p1 * p2, np.int32, full=False, name="results")],
-                          pre="labels in 1..npk; mat npk1*npk2; results 3*npk1*npk2"))
+    # npk1 or npk2 == 0 (a frame without peaks, hence without pixels) is a well-formed call with empty mat/results
+    calls.append(dict(fn="coverlaps", res="int", cls="coverlaps:npk%s" % ("0" if (p1 == 0 or p2 == 0) else "+"),
+                      args=[IN(i1, "row1"), IN(j1, "col1"), IN(la, "labels1"), n1, IN(i2, "row2"), IN(j2, "col2"),
+                            IN(lb, "labels2"), n2, SCRATCH((p1, p2), np.int32, name="mat"), p1, p2,
+                            OUT(3 * p1 * p2, np.int32, full=False, name="results")],
+                      pre="labels in 1..npk; mat npk1*npk2; results 3*npk1*npk2"))
     return calls
 
 
@@ -260,8 +370,8 @@ def g_tosparse(r, k):
     calls = []
     d16 = r.integers(0, 65535, shape).astype(np.uint16)
     calls.append(dict(fn="tosparse_u16", res="int",
-                      args=[IN(d16, "img"), IN(msk, "msk"), OUT(n, np.uint16, full=False, name="row"),
-                            OUT(n, np.uint16, full=False, name="col"), OUT(n, np.uint16, full=False, name="val"),
+                      args=[IN(d16, "img"), IN(msk, "msk"), OUT(shape, np.uint16, full=False, name="row"),
+                            OUT(shape, np.uint16, full=False, name="col"), OUT(shape, np.uint16, full=False, name="val"),
                             int(r.choice([0, 30000, 65535])), shape[0], shape[1]], pre="row/col/val have ns*nf entries"))
     d32 = r.integers(0, 2 ** 32 - 1, shape, dtype=np.uint64).astype(np.uint32)
     calls.append(dict(fn="tosparse_u32", res="int",
@@ -270,13 +380,25 @@ def g_tosparse(r, k):
                             ("f", float(r.choice([0, 2.0 ** 31]))), shape[0], shape[1]], pre="row/col/val have ns*nf entries"))
     df = (r.random(shape) * 100).astype(np.float32)
     calls.append(dict(fn="tosparse_f32", res="int",
-                      args=[IN(df, "img"), IN(msk, "msk"), OUT(n, np.uint16, full=False, name="row"),
-                            OUT(n, np.uint16, full=False, name="col"), OUT(n, np.float32, full=False, name="val"),
+                      args=[IN(df, "img"), IN(msk, "msk"), OUT(shape, np.uint16, full=False, name="row"),
+                            OUT(shape, np.uint16, full=False, name="col"), OUT(shape, np.float32, full=False, name="val"),
                             ("f", float(r.choice([-1, 50, 1000]))), shape[0], shape[1]], pre="row/col/val have ns*nf entries"))
     return calls
 
 
 NPK = [0, 1, 2, 3, 7, 100, 4095, 4096, 4097, 8191, 8192, 8193]
+
+
+def _gz_frames(gv):
+    """g0,g1,g2 of score_gvec_z computed independently (numpy): the inputs of a recompute=0 call"""
+    g = np.asarray(gv, float)
+    with np.errstate(all="ignore"):
+        g0 = g / np.sqrt((g * g).sum(axis=1))[:, None]
+        txy = g[:, 0] ** 2 + g[:, 1] ** 2
+        g1 = np.stack([-g[:, 1], g[:, 0], np.zeros(len(g))], axis=1) / np.sqrt(txy)[:, None]
+        t = 1.0 / np.sqrt(g[:, 0] ** 2 * g[:, 2] ** 2 + g[:, 1] ** 2 * g[:, 2] ** 2 + txy * txy)
+        g2 = np.stack([g[:, 0] * g[:, 2], g[:, 1] * g[:, 2], -txy], axis=1) * t[:, None]
+    return [np.ascontiguousarray(a.reshape(-1, 3)) for a in (g0, g1, g2)]
 
 
 def g_scoring(r, k):
@@ -295,32 +417,57 @@ def g_scoring(r, k):
         dict(fn="refine_assigned", res=None,
              args=[INOUT(ubi.copy(), "ubi"), IN(gv, "gv"), IN(labels, "labels"), 1, OUT(1, np.int32, name="npk"),
                    OUT(1, np.float64, name="drlv2"), n], pre="labels has ng entries"),
-        dict(fn="score_gvec_z", res=None,
+        dict(fn="score_gvec_z", res=None, cls="score_gvec_z:recompute1",
              args=[IN(ubi, "ubi"), IN(np.linalg.inv(ubi), "ub"), IN(gv, "gv"), OUT((n, 3), np.float64, name="g0"),
                    OUT((n, 3), np.float64, name="g1"), OUT((n, 3), np.float64, name="g2"), OUT((n, 3), np.float64, name="e"), 1, n],
              pre="recompute=1 so g0,g1,g2 are outputs"),
+        dict(fn="score_gvec_z", res=None, cls="score_gvec_z:recompute0",
+             args=[IN(ubi, "ubi"), IN(np.linalg.inv(ubi), "ub"), IN(gv, "gv")] + [INOUT(a, nm) for a, nm in zip(_gz_frames(gv), ("g0", "g1", "g2"))]
+             + [OUT((n, 3), np.float64, name="e"), 0, n],
+             pre="recompute=0: g0,g1,g2 hold the frames of an earlier call and are read (the interface declares them inout, so "
+                 "a write inside them would not be a memory error), e is the output"),
         dict(fn="verify_rounding", res="int", args=[int(r.integers(0, 2 ** 30))], pre="none"),
     ]
     u1 = np.ascontiguousarray(np.linalg.qr(r.normal(size=(3, 3)))[0])
     u2 = np.ascontiguousarray(np.linalg.qr(r.normal(size=(3, 3)))[0])
     for f in ("misori_cubic", "misori_orthorhombic", "misori_tetragonal", "misori_monoclinic"):
         calls.append(dict(fn=f, res="double", args=[IN(u1, "u1"), IN(u2, "u2")], pre="3x3 matrices"))
+    z = "n0" if n == 0 else "n+"
+    # n == 0 is a well-formed call of every kernel below except cluster1d (see g_pending)
+    nv, dim = min(n, 200), int(r.integers(1, 5))
+    calls.append(dict(fn="closest_vec", res=None, cls="closest_vec:" + z,
+                      args=[IN(r.normal(size=(nv, dim)), "x"), dim, nv, OUT(nv, np.int32, name="ic")], pre="nv >= 0"))
+    x = r.uniform(-1, 1, min(n, 500))
+    xs = k % 2
+    if xs:
+        x = np.sort(x)                 # closest() does not document an ordering: sorted and unsorted x
+    nvv = int(pick(r, [7, 7, 1, 0, 20]))
+    calls.append(dict(fn="closest", res=None, cls="closest:%s:%s:nv%d" % (z, "sorted" if xs else "unsorted", nvv),
+                      args=[IN(x, "x"), IN(r.uniform(-1, 1, nvv), "v"), OUT(1, np.int32, name="ibest"), OUT(1, np.float64, name="best"),
+                            len(x), nvv], pre="none"))
+    m = int(r.integers(1, 50))
+    ind = r.integers(0, m, n)
+    for fn, dt in (("put_incr64", np.int64), ("put_incr32", np.int32)):
+        for bc in (0, 1):
+            calls.append(dict(fn=fn, res=None, cls="put_incr:inrange:" + z,
+                              args=[INOUT(np.zeros(m, np.float32), "data"), IN(ind.astype(dt), "ind"),
+                                    IN(r.random(n).astype(np.float32), "vals"), bc, n, m],
+                              pre="all indices in 0..m-1 (boundscheck=0 does not test them)"))
+        if n and n <= 100:
+            # boundscheck=1 is the documented way to pass indices that may be out of range: they must be skipped
+            # (the kernel prints one line per rejected index, hence only for small n)
+            bad = ind.astype(dt)
+            hostile = [-1, m, m + 1, -m, np.iinfo(dt).max, np.iinfo(dt).min, 2 ** 31 - 1, -2 ** 31]
+            if dt is np.int64:
+                hostile += [2 ** 32, 2 ** 32 + 1, -2 ** 32 + 1]      # equal to valid indices after truncation to 32 bits
+            sel = r.random(n) < 0.5
+            sel[0] = True
+            bad[sel] = r.choice(np.array(hostile, dtype=dt), int(sel.sum()))
+            calls.append(dict(fn=fn, res=None, cls="put_incr:outofrange",
+                              args=[INOUT(np.zeros(m, np.float32), "data"), IN(bad, "ind"),
+                                    IN(r.random(n).astype(np.float32), "vals"), 1, n, m],
+                              pre="boundscheck=1: any index value; out-of-range ones are reported and skipped"))
     if n >= 1:
-        nv, dim = min(n, 200), int(r.integers(1, 5))
-        calls.append(dict(fn="closest_vec", res=None,
-                          args=[IN(r.normal(size=(nv, dim)), "x"), dim, nv, OUT(nv, np.int32, name="ic")], pre="nv >= 1"))
-        x = np.sort(r.uniform(-1, 1, min(n, 500)))
-        calls.append(dict(fn="closest", res=None,
-                          args=[IN(x, "x"), IN(r.uniform(-1, 1, 7), "v"), OUT(1, np.int32, name="ibest"), OUT(1, np.float64, name="best"),
-                                len(x), 7], pre="none"))
-        m = int(r.integers(1, 50))
-        ind = r.integers(0, m, n)
-        for fn, dt in (("put_incr64", np.int64), ("put_incr32", np.int32)):
-            for bc in (0, 1):
-                calls.append(dict(fn=fn, res=None,
-                                  args=[INOUT(np.zeros(m, np.float32), "data"), IN(ind.astype(dt), "ind"),
-                                        IN(r.random(n).astype(np.float32), "vals"), bc, n, m],
-                                  pre="all indices in 0..m-1 (boundscheck=0 does not test them)"))
         ar = r.uniform(0, 10, min(n, 300))
         order = np.argsort(ar).astype(np.int32)
         calls.append(dict(fn="cluster1d", res=None,
@@ -355,37 +502,54 @@ def g_diffraction(r, k):
     ubi = np.zeros((3, 3))
     ubi[0] = r.normal(size=3)
     ubi[1] = r.normal(size=3)
-    calls.append(dict(fn="quickorient", res=None, args=[INOUT(ubi, "ubi"), IN(r.normal(size=9), "bt")],
+    calls.append(dict(fn="quickorient", res=None, args=[INOUT(ubi, "ubi"), IN(r.normal(size=(3, 3)), "bt")],
                       pre="ubi[0], ubi[1] hold two non-collinear g-vectors"))
     return calls
 
 
 def g_darkflat(r, k):
     shape = SHAPES[k % len(SHAPES)]
+    if k % 4 == 2:
+        shape = pick(r, ASPECT)       # several thousand pixels / long and short rows for the "parallel for simd" loops
     npx = shape[0] * shape[1]
     img = (r.random(shape) * 100).astype(np.float32)
     drk = (r.random(shape) * 10).astype(np.float32)
     d16 = r.integers(0, 65535, shape).astype(np.uint16)
+    # sigma-clipped statistics: iteration count cycles through 3,1,2,5,0,3, verbose=1 every fifth round, cut from the
+    # case rng (the defaults are 3 / 3.0 / 0);
+    # a small cut can leave no active pixel (nactive == 0): mean/std become NaN, which is a value, not a memory error
+    nit, cut, verbose = [3, 1, 2, 5, 0, 3][k % 6], float(pick(r, [3.0, 3.0, 1.0, 0.5, 10.0])), int(k % 5 == 4)
+    mv = "meanvar:n%d:%s" % (nit, "verbose" if verbose else "quiet")
+    # histogram: pixel values are in [-30,130) or [0,100); bin range narrower than, equal to or wider than the data
+    himg = img if r.random() < 0.3 else (r.random(shape) * 160 - 30).astype(np.float32)
+    hk = ["narrow", "wide", "tiny", "exact", "narrow"][k % 5]
+    # "tiny": a bin range one thousandth wide next to data spanning 160 units: bin numbers up to ~6e6, far outside
+    # 0..nhist-1 on both sides but still representable as int (high == low itself gives an infinite bin number whose
+    # conversion to int has no defined value: not a well-formed call, not generated)
+    low, high = dict(narrow=(20.0, 80.0), wide=(-100.0, 500.0), tiny=(50.0, 50.001), exact=(0.0, 100.0))[hk]
+    nh = int(r.integers(1, 40))
     calls = [
-        dict(fn="uint16_to_float_darksub", res=None, args=[OUT(npx, np.float32, name="img"), IN(drk, "drk"), IN(d16, "data"), npx], pre="none"),
+        dict(fn="uint16_to_float_darksub", res=None, args=[OUT(npx, np.float32, name="img"), IN(drk.ravel(), "drk"), IN(d16.ravel(), "data"), npx], pre="none"),
         dict(fn="uint16_to_float_darkflm", res=None,
-             args=[OUT(npx, np.float32, name="img"), IN(drk, "drk"), IN(drk + 1, "flm"), IN(d16, "data"), npx], pre="none"),
+             args=[OUT(npx, np.float32, name="img"), IN(drk.ravel(), "drk"), IN(drk.ravel() + 1, "flm"), IN(d16.ravel(), "data"), npx], pre="none"),
         dict(fn="frelon_lines", res=None, args=[INOUT(img.copy(), "img"), shape[0], shape[1], ("f", 50.0)], pre="none"),
         dict(fn="frelon_lines_sub", res=None, args=[INOUT(img.copy(), "img"), IN(drk, "drk"), shape[0], shape[1], ("f", 50.0)], pre="none"),
-        dict(fn="array_mean_var_cut", res=None,
-             args=[IN(img, "img"), npx, OUT(1, np.float32, name="mean"), OUT(1, np.float32, name="std"), 3, ("f", 3.0), 0], pre="npx >= 1"),
-        dict(fn="array_mean_var_msk", res=None,
+        dict(fn="array_mean_var_cut", res=None, cls=mv,
+             args=[IN(img, "img"), npx, OUT(1, np.float32, name="mean"), OUT(1, np.float32, name="std"), nit, ("f", cut), verbose],
+             pre="npx >= 1"),
+        dict(fn="array_mean_var_msk", res=None, cls=mv,
              args=[IN(img, "img"), OUT(npx, np.uint8, name="msk"), npx, OUT(1, np.float32, name="mean"), OUT(1, np.float32, name="std"),
-                   3, ("f", 3.0), 0], pre="npx >= 1"),
+                   nit, ("f", cut), verbose], pre="npx >= 1"),
         dict(fn="array_stats", res=None,
              args=[IN(img, "img"), npx] + [OUT(1, np.float32, name=nm) for nm in ("minval", "maxval", "mean", "var")], pre="none"),
-        dict(fn="array_histogram", res=None,
-             args=[IN(img, "img"), npx, ("f", 0.0), ("f", 100.0), OUT(int(r.integers(1, 40)), np.int32, name="hist"), None], pre="nhist >= 1"),
+        dict(fn="array_histogram", res=None, cls="histogram:%s" % ("inrange" if (hk in ("wide", "exact") and himg is img) or hk == "wide"
+                                                                   else "outofrange"),
+             args=[IN(himg, "img"), npx, ("f", low), ("f", high), OUT(nh, np.int32, name="hist"), nh],
+             pre="nhist >= 1, high > low; pixels below low / above high are counted in the first / last bin"),
         dict(fn="bgcalc", res=None,
              args=[IN(img, "img"), OUT(shape, np.float32, name="bg"), OUT(shape, np.uint8, name="msk"), shape[0], shape[1],
                    ("f", 0.1), ("f", 0.05), ("f", 1.0)], pre="none"),
     ]
-    calls[-2]["args"][-1] = len(calls[-2]["args"][-2].arr)
     perm = r.permutation(npx).astype(np.uint32)
     calls += [
         dict(fn="reorder_u16_a32", res=None, args=[IN(d16, "data"), IN(perm, "adr"), OUT(npx, np.uint16, name="out"), npx],
@@ -407,13 +571,32 @@ def g_darkflat(r, k):
 
 
 def g_splat(r, k):
-    w, h = [(8, 8), (16, 12), (64, 64), (5, 40)][k % 4]
+    w, h = [(8, 8), (16, 12), (64, 64), (5, 40), (40, 5), (2, 2)][k % 6]
     ng = NPK[k % 7]
-    gve = np.ascontiguousarray(r.uniform(-1, 1, (ng, 3)))
-    return [dict(fn="splat", res=None,
-                 args=[OUT((h, w, 4), np.uint8, name="rgba"), w, h, IN(gve, "gve"), ng, IN(np.eye(3).ravel(), "u"), int(k % 3)],
+    # view matrix: identity (as the first version of this generator) or a random rotation times a zoom factor, and
+    # g-vectors up to |g| = 3 A^-1: most points then project outside the picture, some exactly around its edges.
+    # |s*g| stays below 1e4, far inside the int range of the (int) conversion
+    ident = (k % 3 == 0)
+    u = np.eye(3) if ident else np.linalg.qr(r.normal(size=(3, 3)))[0] * float(pick(r, [0.3, 1.0, 3.0, 10.0]))
+    gve = np.ascontiguousarray(r.uniform(-1, 1, (ng, 3)) * (1.0 if ident else 3.0))
+    npx = int(pick(r, [0, 1, 2, 3]))
+    return [dict(fn="splat", res=None, cls="splat:%s" % ("identity" if ident else "rotated"),
+                 args=[OUT((h, w, 4), np.uint8, name="rgba"), w, h, IN(gve, "gve"), ng, IN(np.ascontiguousarray(u).ravel(), "u"), npx],
                  pre="rgba is w*h*4 bytes")]
 
 
+def g_pending(r, k):
+    """calls whose well-formedness follows from the property statement ("any number of peaks ... including zero") but on
+    which the pinned tree misbehaved (repaired in /repo, see known_findings.json)"""
+    calls = []
+    if True:
+        calls.append(dict(fn="cluster1d", res=None, cls="cluster1d:n0",
+                          args=[IN(np.zeros(0), "ar"), 0, IN(np.zeros(0, np.int32), "order"), ("d", 0.1),
+                                OUT(1, np.int32, name="nclusters"), OUT(0, np.int32, name="ids"),
+                                OUT(0, np.float64, full=False, name="avgs")],
+                          pre="n == 0: nothing to cluster"))
+    return calls
+
+
 GENERATORS = [g_connectedpixels, g_blobproperties, g_bloboverlaps, g_clean_mask, g_localmaxlabel, g_sparse, g_overlaps,
-              g_tosparse, g_scoring, g_diffraction, g_darkflat, g_splat]
+              g_tosparse, g_scoring, g_diffraction, g_darkflat, g_splat, g_pending]
